@@ -77,7 +77,10 @@ static void body(void) {
     case 5: workers = 1 + vx_choose(2); n = 4 * g_jobsize; st[0] = (step_t){ g_jobsize + 10, 1u << 20, ZSTD_e_continue, 0 }; st[1] = (step_t){ 2 * g_jobsize + 20, 1u << 20, ZSTD_e_continue, 7 }; st[2] = (step_t){ n, 1u << 20, ZSTD_e_end, 1 }; nsteps = 3; break;
     case 6: workers = 1 + vx_choose(2); n = 4 * g_jobsize + 5;
         st[0] = (step_t){ g_jobsize + 1, 16, ZSTD_e_continue, 0 }; st[1] = (step_t){ 2 * g_jobsize + 100, 16, ZSTD_e_continue, 0 }; st[2] = (step_t){ 3 * g_jobsize + 300, 16, ZSTD_e_flush, 0 }; st[3] = (step_t){ n, 16, ZSTD_e_end, 0 }; nsteps = 4;
-        abortAt = vx_choose(12); abortKind = vx_choose(2); break;
+        abortAt = vx_choose(10); abortKind = vx_choose(2); break;
+    case 10: workers = 1 + vx_choose(2); workers2 = workers + 1; n = 4 * g_jobsize + 5;      /* abandon a frame, then a frame with MORE workers (pools are re-allocated) */
+        st[0] = (step_t){ g_jobsize + 1, 16, ZSTD_e_continue, 0 }; st[1] = (step_t){ 2 * g_jobsize + 100, 16, ZSTD_e_continue, 0 }; st[2] = (step_t){ 3 * g_jobsize + 300, 16, ZSTD_e_flush, 0 }; st[3] = (step_t){ n, 16, ZSTD_e_end, 0 }; nsteps = 4;
+        abortAt = vx_choose(8); abortKind = 0; break;
     case 8: workers = 1 + vx_choose(2); rsync = 1; checksum = 1; n = g_jobsize * 2 + g_jobsize / 3; st[0] = (step_t){ n, 1u << 22, ZSTD_e_end, 0 }; nsteps = 1; break;
     case 9: workers = 3; workers2 = 1 + vx_choose(2); n = 3 * g_jobsize + 11; st[0] = (step_t){ n, 1u << 20, ZSTD_e_end, 0 }; nsteps = 1; break;
     default: return;
@@ -105,10 +108,10 @@ static void body(void) {
         if (ldm) { ZSTD_CCtx_setParameter(c, ZSTD_c_enableLongDistanceMatching, ZSTD_ps_enable); ZSTD_CCtx_setParameter(c, ZSTD_c_ldmHashLog, 8); ZSTD_CCtx_setParameter(c, ZSTD_c_ldmMinMatch, 32); ZSTD_CCtx_setParameter(c, ZSTD_c_ldmHashRateLog, 2); }
         if (dictMode == 1) ZSTD_CCtx_refPrefix(c, g_dict, 1500);
         if (dictMode == 2) { if (!cd) cd = ZSTD_createCDict(g_dict, 1500, level); ZSTD_CCtx_refCDict(c, cd); }
-        int stop = (g_driver == 6 && frame == 0) ? abortAt : -1;
+        int stop = ((g_driver == 6 || g_driver == 10) && frame == 0) ? abortAt : -1;
         produced = run_script(c, g_src, n, st, nsteps, g_dst, ZSTD_compressBound(n) + 64, stop, &mid);
         if (produced == (size_t)-1) break;
-        if (g_driver == 6 && frame == 0 && mid) {
+        if ((g_driver == 6 || g_driver == 10) && frame == 0 && mid) {
             /* abandon the frame in whatever protocol state the schedule left it, then reuse (or replace) the context */
             if (abortKind == 0) { size_t e = ZSTD_CCtx_reset(c, ZSTD_reset_session_only); if (ZSTD_isError(e)) { vx_fail("session reset failed: %s", ZSTD_getErrorName(e)); produced = (size_t)-1; break; } }
             else { ZSTD_freeCCtx(c); c = ZSTD_createCCtx(); }
@@ -133,9 +136,9 @@ static void body(void) {
     /* C07: one output per subject, whatever the schedule and the number of workers */
     uint64_t h = vx_hash(g_dst, produced) | 1;
     int slot = (g_driver * 64 + overlap * 5 + dictMode * 16 + (abortAt >= 0 ? 0 : 0)) & 4095;
-    if (g_driver == 6 || g_driver == 9) slot = (g_driver * 64) & 4095;   /* second frame is the same subject for every abort point / worker change */
+    if (g_driver == 6 || g_driver == 9 || g_driver == 10) slot = (g_driver * 64) & 4095;   /* second frame is the same subject for every abort point / worker change */
     uint64_t prev = __sync_val_compare_and_swap(&g_first[slot], 0, h);
-    if (prev != 0 && prev != h) { vx_fail("driver %d: output differs between schedules / worker counts for the same input and parameters", g_driver); return; }
+    if (prev != 0 && prev != h) { vx_fail("differential: driver %d: output differs between schedules / worker counts for the same input and parameters", g_driver); return; }
     vx_obs_u64(h); vx_obs_u64((uint64_t)sw);
     if (sw > 4) vx_nontrivial();
     vx_stat_add("blocking_waits", waits); vx_stat_add("sched_points", pts); vx_stat_max("max_threads", nth); vx_stat_max("max_points_per_exec", pts);
